@@ -5,6 +5,7 @@ cd "$(dirname "$0")"
 export PYTHONDONTWRITEBYTECODE=1
 mkdir -p .work evidence replays
 /venv/bin/python translate/kernels.py "${VERIF_REPO:-/repo}" coq/theories/Gen || true
+/venv/bin/python -c "import sys; sys.path.insert(0,'harness'); import framework; framework.write_coqproject()"
 cd coq
 coq_makefile -f _CoqProject -o Makefile
 make clean >/dev/null 2>&1 || true
